@@ -77,9 +77,9 @@ func (dm *DMap) getOnFragment(e *env) (storage.Entry, error) {
 		return nil, err
 	}
 
-	if isKeyExpired(entry.TTL()) {
-		return nil, ErrKeyNotFound
-	}
+	// An expired copy is returned as it is: the member that reads compares the
+	// timestamps of all the copies first and checks the expiry of the newest one.
+	// Hiding it here would let an older copy on another member win the read.
 	return entry, nil
 }
 
